@@ -35,6 +35,10 @@ theorem temp_seed_shape_eq : Gen.C05.tempSeedShape = Rng.tempSeedShape := by dec
 mask and the ACS call; `integerize_seed` returns int seeds unchanged -/
 theorem plumbing_ok : plumbingOk plumbing = true := by decide
 
+/-- no generator keeps per-instance memory between calls (no memo / cache / counter written in `mask_func` or its
+helpers), so modelling a call's body as a function of (arguments, drawn values) is faithful -/
+theorem no_instance_state_written : selfWritesOk selfWrites = true := by decide
+
 /-- the universal theorems, for the code as it is -/
 theorem code_seeded_call_history_independent {σ Seed Req Val Out : Type} (O : Ops σ Seed Req Val)
     (prog : Prog Req Val Out) (hp : SitesIn table.length prog) (s : Seed) (i i' : Nat) (st st' : State σ Val) :
